@@ -163,7 +163,7 @@ def check_c29(prog):
         queries = [Term.from_string(progs.atom_str(q[1]).replace("_", "X")) for q in qs]
         evid = [(Term.from_string(progs.atom_str(e[1])), Term("true" if e[2] else "false")) for e in ev]
 
-        def run(db):
+        def run(db, eng=eng):
             try:
                 gp = eng.ground_all(db, queries=queries, evidence=evid)
                 r = get_evaluatable().create_from(gp).evaluate()
@@ -171,7 +171,10 @@ def check_c29(prog):
             except Exception as ex:      # noqa
                 return "exc", classify_exception(ex)
         got_child = run(child)
-        got_parent = run(parent)
+        # C29 is about the databases: an engine object whose run ended in an exception is left with a half-unwound
+        # stack (e.g. IndirectCallCycleError on its next query), so after a failed child run the parent database is
+        # queried through a fresh engine; after a successful one through the same engine (interleaved queries)
+        got_parent = run(parent) if got_child[0] == "ok" else run(parent, DefaultEngine())
     except Exception as ex:      # noqa
         out["violations"].append(("extend:exception:" + classify_exception(ex).split(":", 1)[1], classify_exception(ex)))
         return out
